@@ -67,6 +67,10 @@ func (pm *ProfileMergeV2) Merge(p *prof.Profile) error {
 		s.Type = strIdx[s.Type]
 	}
 
+	p.DropFrames = strIdx[p.DropFrames]
+	p.KeepFrames = strIdx[p.KeepFrames]
+	p.DefaultSampleType = strIdx[p.DefaultSampleType]
+
 	if pm.prof == nil {
 		pm.init(p)
 	}
@@ -104,6 +108,7 @@ func (pm *ProfileMergeV2) Merge(p *prof.Profile) error {
 		for _, label := range s.Label {
 			label.Key = strIdx[label.Key]
 			label.Str = strIdx[label.Str]
+			label.NumUnit = strIdx[label.NumUnit]
 		}
 		for i := range s.LocationId {
 			s.LocationId[i] = locationIdx[s.LocationId[i]]
